@@ -6,6 +6,7 @@
    handlers are filed under negative keys), and reaches the task loop otherwise. *)
 From FMP Require Import Base.Bytes Base.Lts Model.Events Model.Skeleton Model.Props Model.Receiver
      Proofs.ReceiverProofs Proofs.SkeletonProofs.
+From FMP Require Import Model.CodecCfg Proofs.CodecCfgProofs.
 Open Scope Z_scope.
 
 (* the completion or cancellation of any other call or notification never cancels a running handler's context *)
@@ -62,6 +63,10 @@ Example ex_run : exists st, run (rstep expected_skeleton) rinit
     /\ c09_only_own (rtrace st) = true /\ length (rtrace st) = 11%nat.
 Proof. eexists. split; [vm_compute; reflexivity | split; vm_compute; reflexivity]. Qed.
 
+(* the model cancels every registered handler when the task loop sees the stop; the source calls the cancel functions of its table in the stop arm before closing closedCh, and on cancel / end for the one entry (regenerated order census of receiver.go) *)
+Theorem C09_task_loop_cancels_its_table_on_stop : cdf_taskloop_cancels codecfacts_now = true.
+Proof. exact codec_taskloop_cancels. Qed.
+
 Print Assumptions C09_cancelled_only_for_own_reasons.
 Print Assumptions C09_close_cancels_all.
 Print Assumptions C09_taskloop_exits_only_after_stop.
@@ -70,3 +75,4 @@ Print Assumptions C09_generated_guard_ok.
 Print Assumptions C09_shared_key_refuted.
 Print Assumptions C09_shared_key_close_refuted.
 Print Assumptions C09_negative_cancel_refuted.
+Print Assumptions C09_task_loop_cancels_its_table_on_stop.
